@@ -10,7 +10,7 @@ from emmet.config import Config
 PROP_ID = 'C20'
 RULE = ("case = (kind ∈ options/snippets/variables, type, syntax, presence bits of the six layers "
         "[built-in, type defaults, syntax defaults, global type, global syntax, call]) — the complete 2^6 lattice for every known syntax of "
-        "both types, `xhtml` and three unknown syntax names (exhaustive; built-in layers are injected into deep copies of DEFAULT_CONFIG / "
+        "both types, `xhtml` and unknown syntax names, plus the markup/html lattice with type and syntax left out of the call config (exhaustive; built-in layers are injected into deep copies of DEFAULT_CONFIG / "
         "SYNTAX_CONFIG swapped in for one case); plus natural keys of the shipped tables ('!!!', 'a', 'tm', selfClosingStyle, jsx.enabled, "
         "stylesheet.after/between) × 2^3 caller layers. Oracle: the key resolves to the sentinel of the most specific defining layer, every other "
         "key equals the baseline, the same winner is visible through expand(), and deep snapshots of all built-in tables and caller dicts are "
@@ -85,7 +85,8 @@ def check_lattice(case, rec):
             glob.setdefault(typ, {}).setdefault(kind, {})[key] = val(3)
         if bits[4]:
             glob.setdefault(syntax, {}).setdefault(kind, {})[key] = val(4)
-        user = {'type': typ, 'syntax': syntax}
+        # 'implicit': the caller leaves type and syntax out (defaults markup/html) — possibly passing an entirely empty config
+        user = {} if case.get('implicit') else {'type': typ, 'syntax': syntax}
         if bits[5]:
             user[kind] = {key: val(5)}
         C.DEFAULT_CONFIG, C.SYNTAX_CONFIG = dc, sc
@@ -274,6 +275,8 @@ def run(ctx):
                 for bits in itertools.product([False, True], repeat=6):
                     yield {'kind': kind, 'type': typ, 'syntax': syntax, 'layers': list(bits)}
     ctx.run_cases('lattice', lattice())
+    ctx.run_cases('lattice', ({'kind': kind, 'type': 'markup', 'syntax': 'html', 'layers': list(bits), 'implicit': True}
+                              for kind in ('options', 'snippets', 'variables') for bits in itertools.product([False, True], repeat=6)))
     ctx.exhaustive('2^6 layer-presence subsets × {options, snippets, variables} × %d (type, syntax) pairs' % len(pairs))
     def natural():
         for kind, typ, syntax, key in NATURAL:
